@@ -117,6 +117,7 @@ TRACE_CFG = """CONSTANTS
  DevOrphanAlwaysSkipped = FALSE
  DevNoFlushOnAck = FALSE
  DevTolerateLostIdx = FALSE
+ DevRestoreCountsOrphan = FALSE
 INIT TInit
 NEXT TNext
 POSTCONDITION Reached
